@@ -1,4 +1,5 @@
 """C06 — state machine and claim invariants hold on every path."""
+import json
 from .. import common, framework, fndiff, cmdrun, gen, oracles, explore2
 from ..histories import run_history, fieldset, replay_trace
 
@@ -81,6 +82,47 @@ def probe_setev_diffs(ctx, diffs, oracle_fn=None):
             st.close()
 
 
+def born_with_state(ctx, r):
+    """items whose state / claimant were given at creation (every input channel), then `compact`, then more commands: compaction re-writes the
+    log from the graph — the pair (state, claimant) of every item must come through unchanged and satisfy the invariant"""
+    st = cmdrun.Store(ctx.ergo, ctx.go, legacy=r.p(15))
+    trace = []
+    try:
+        def ex(argv, stdin=None):
+            res = st.exec(argv, stdin); trace.append({"argv": argv, "stdin": None if stdin is None else stdin.decode(), "exit": res["exit"]}); return res
+        J = lambda d: json.dumps(d).encode()
+        ex(["--json", "new", "task"], J({"title": "plain"}))
+        for state, claim in (("doing", "ag-a"), ("blocked", "ag-b"), ("blocked", None), ("done", None), ("canceled", None), ("error", "ag-e"), (None, "ag-c")):
+            d = {"title": "born %s/%s" % (state, claim)}
+            if state: d["state"] = state
+            if claim: d["claim"] = claim
+            mode = r.pick(["json", "flags", "body-stdin"])
+            if mode == "json":
+                ex(["--json", "new", "task"], J(d))
+            else:
+                argv = ["--json", "new", "task", "--title", d["title"]] + (["--state", state] if state else []) + (["--claim", claim] if claim else [])
+                ex(argv + (["--body-stdin"] if mode == "body-stdin" else []), b"body\n" if mode == "body-stdin" else None)
+        before = st.graph()
+        if "graph" not in before:
+            return
+        ex(["--json", "compact"])
+        if r.p(50):
+            ex(["--json", "compact"])
+        after = st.graph()
+        ctx.count(1, key=("born-with-state", len(before["graph"]["tasks"])))
+        if "graph" not in after:
+            ctx.violation("C06 store unreadable after compact", str(after.get("err"))[:200], {"trace": trace}); return
+        for bad in oracles.inv06(after["graph"]):
+            ctx.violation("C06 inv %s after compact" % bad[0], "state/claim invariant broken by compaction: %s" % (bad,), {"trace": trace, "bad": bad}); return
+        b = {t["id"]: (t["st"], t["claimed_by"]) for t in before["graph"]["tasks"]}
+        a = {t["id"]: (t["st"], t["claimed_by"]) for t in after["graph"]["tasks"]}
+        if a != b:
+            k = [i for i in b if a.get(i) != b[i]][0]
+            ctx.violation("C06 state changed without a request (compact)", "item %s was %s and is %s after compact: no transition was asked for" % (k, b[k], a.get(k)), {"trace": trace}); return
+    finally:
+        st.close()
+
+
 def run(ctx):
     framework.check_facts(ctx, ctx.facts, ["valid_transitions", "valid_states", "claim_required", "claim_forbidden", "clears_claim"])
     res = fndiff.run_stream(ctx.ev, ["fn-setev"])
@@ -111,6 +153,8 @@ def run(ctx):
     for i in range(5 if ctx.quick else 60):
         explore2.explore(ctx, "C06", r.fork(), kindsA=(("set_same",) if i % 3 != 2 else ("claim_id", "set+state")), kindsB=(("set_same",) if i % 3 != 2 else ("set+state", "reopen", "close")),
                          max_points=(6 if ctx.quick else 40), state_cmds=8, post_oracle=post)
+    for i in range(3 if ctx.quick else 40):
+        born_with_state(ctx, r.fork())
     for h in range(25 if ctx.quick else 400):
         run_history(ctx, r.fork(), 30, WEIGHTS, oracle)
     ctx.cov["rule"] = ("exhaustive buildSetEvents table (state × claimed × kind × field-presence × values × agent) model vs Go; "
